@@ -111,6 +111,9 @@ static int prep_rand(const char *path)
     int n = (int)hk_range(1, 6);
     for (int i = 0; i < n; i++) { wl_fill(b, 400, 70 + i); Hputelement(fid, (uint16)(3000 + i % 2), (uint16)(i + 1), b, (int32)hk_range(1, 400)); }
     if (hk_chance(50)) { int32 aid = HLcreate(fid, 3100, 1, (int32)hk_range(8, 64), (int32)hk_range(1, 3)); wl_fill(b, 400, 80); Hwrite(aid, (int32)hk_range(1, 300), b); Hendaccess(aid); }
+    /* descriptors that bring no data of their own (aliases made by Hdupdd, as DFPaddpal / GR palettes do): enough of them open a new
+       descriptor block that is then the LAST thing in the file - the end of stored data is the end of that block, not of an element */
+    if (hk_chance(50)) { int m = (int)hk_range(1, rnd_ndds + 2); for (int j = 0; j < m; j++) Hdupdd(fid, 3500, (uint16)(j + 1), 3000, 1); }
     return Hclose(fid);
 }
 static int run_rand(const char *path)
